@@ -213,14 +213,10 @@ func (bsn *blockScanner) scan(ctx context.Context, blockCh chan *blockScanResult
 	if len(bsn.parts) < 1 {
 		return
 	}
-	var parts []*part
-	if bsn.asc {
-		parts = bsn.parts[0]
-		bsn.parts = bsn.parts[1:]
-	} else {
-		parts = bsn.parts[len(bsn.parts)-1]
-		bsn.parts = bsn.parts[:len(bsn.parts)-1]
-	}
+	// getDisjointParts has already ordered the groups for the scan direction
+	// (newest group first when descending), so the next group is always the first one.
+	parts := bsn.parts[0]
+	bsn.parts = bsn.parts[1:]
 	bma := generateBlockMetadataArray()
 	defer releaseBlockMetadataArray(bma)
 	ti := generateTstIter()
